@@ -31,7 +31,7 @@ func (a RegistryIndices) ByteLength(spec *common.Spec) uint64 {
 	return common.ValidatorIndexType.TypeByteLength() * uint64(len(a))
 }
 
-func (*RegistryIndices) FixedLength() uint64 {
+func (*RegistryIndices) FixedLength(*common.Spec) uint64 {
 	return 0
 }
 
